@@ -101,6 +101,16 @@ func ruleAbsent(c *Ctx) {
 						}
 					})
 				}
+				// (d) the merge walk, for a patch member that is not null: RFC 7396 replaces a target
+				// member that is absent and one that is null alike (neither is an object), and
+				// R-MERGESHAPE M3 sees to it that the member is stored on every such path
+				if why == "" && b.roleNameOf(fn) == "mergeDocs" {
+					if ml := b.findMemberLoop(fn); ml != nil && ml.nonNilBlk != nil && lk.Index == ml.key && edgeDominates(ml.testBlk, ml.nonNilSucc, lk.Block()) {
+						if rg, isR := rangeOfKey(ml.key); isR && !sameMapValue(rg, lk.X) {
+							why = "the target's member for a patch member that is not null: absent and null are replaced alike (RFC 7396; the store is R-MERGESHAPE M3's)"
+						}
+					}
+				}
 				if why != "" {
 					l.add("R-ABSENT", b.Name, key, b.posOf(lk), Discharged, why, true)
 				} else if reason, ok := absentExceptions[b.Name+"|"+fname(fn)]; ok {
@@ -125,4 +135,21 @@ func sameMapValue(x, y ssa.Value) bool {
 	}
 	lx, ly := loadOf(x), loadOf(y)
 	return lx != nil && lx == ly
+}
+
+// rangeOfKey: key is the key of a range over a map; returns that map.
+func rangeOfKey(key ssa.Value) (ssa.Value, bool) {
+	ex, ok := key.(*ssa.Extract)
+	if !ok || ex.Index != 1 {
+		return nil, false
+	}
+	nx, ok := ex.Tuple.(*ssa.Next)
+	if !ok {
+		return nil, false
+	}
+	rg, ok := nx.Iter.(*ssa.Range)
+	if !ok {
+		return nil, false
+	}
+	return rg.X, true
 }
